@@ -44,6 +44,8 @@ def parseOp (t : String) : Option SOp :=
   | ["eP", c, h] => do some (.ePush (← parseInt c) (← optHex h))
   | ["iT"] => some .iTag
   | ["iN", n, d] => do some (.iNums (← n.toNat?) (← parseInt d))
+  | ["iC", h] => do some (.iIsCmd (← unhex h))
+  | ["iM", p, h] => do some (.iMatch (← unhex p) (← unhex h))
   | ["oF", s] => some (.onFail (s != "0"))
   | ["ret", v] => some (.ret (v != "0"))
   | ["bI", name] => (Builtin.ofName name).map SOp.builtin
@@ -115,6 +117,7 @@ def evStr (pFloatDbl : Bool) : Ev → String
   | .pArr ok vs => s!"A{b01 ok}:" ++ (if vs.isEmpty then "-" else ",".intercalate (vs.map toString))
   | .tag t => s!"G{t}"
   | .nums ok l => s!"U{b01 ok}:" ++ (if l.isEmpty then "-" else ",".intercalate (l.map toString))
+  | .test ok => s!"V{b01 ok}"
   | .error c _ => s!"E{c}"
   | .input r => s!"R{b01 r}"
   | .parseMsg m => s!"P{hexOfBytes m}"
@@ -252,9 +255,12 @@ def modelParse (cfg : String) (inp : List String) : Option (List String × List 
     -- context 1 is left as A left it (pending tail dropped); context 2 is fresh with A's registers and queue content only
     let (_, q) := drainQueue c1
     let pendingA := c1.buf.take c1.position
-    let c1 := { c1 with position := 0, events := [] }
+    -- pending input of A is part of the stream: context 1 keeps it as A's calls left it, the fresh context receives the
+    -- same bytes in a call of its own
+    let c1 := { c1 with events := [] }
     let c2 := seed fresh q regs
     let c2 := { c2 with cmdError := fresh.cmdError }
+    let c2 := if pendingA.isEmpty then c2 else { Ctx.input c2 pendingA with events := [] }
     let (d1, e1) ← runChunks c1 b
     let (d2, e2) ← runChunks c2 b
     pure (["K" ++ hexOfBytes pendingA] ++ e1 ++ finishStr d1 ++ ["||"] ++ e2 ++ finishStr d2, cmds)
